@@ -8,7 +8,7 @@ from .. import calg, jmodel as J
 from ..cskel import Skel, strip_comments
 from ..pymodel import package
 from ..ratemodel import model as ratemodel, SELF
-from ..valueflow import Flow, lower, show, simp, subst, walk
+from ..valueflow import Flow, lower, show, simp, split_guard, subst, walk
 
 EXPLANATION = (
     "From the registration tables Reg(K) (ordered name/symbol/kind/value, extracted from the __init__ chains of the 6 reaction classes, 5 grain "
@@ -67,11 +67,15 @@ class Regs(dict):
     def __init__(self):
         super().__init__()
         self.names, self.opaque = {}, set()
+        self.header_text = ""          # the two headers every unit includes, as text (includes resolved)
 
     def judge(self, ctx, ok, rule, key, where, msg, **kw):
         # (a fixed IDX_<species> is undefined whatever is registered)
+        m = re.match(r"`(\w+)` is not declared by any registry", msg) if not ok else None
         if not ok and self.opaque and "names a fixed species" not in msg:
             ctx.unrec(rule, key, where, f"{msg} -- but registrations of {sorted(self.opaque)} are not understood, so an undeclared identifier cannot be concluded")
+        elif m and re.search(r"\b" + re.escape(m.group(1)) + r"\b", self.header_text):
+            ctx.unrec(rule, key, where, f"{msg} -- but a header every unit includes mentions `{m.group(1)}` in a way that is not read as a declaration")
         else:
             ctx.check(ok, rule, key, where, msg, **kw)
 
@@ -96,6 +100,25 @@ def tables(rm, ctx=None):
                               "cannot read the (symbol, value, kind) triple of this registration: which C identifier it declares is unknown")
                 continue
             regs[c].append(s)
+    # a constructor that mentions `register` more often than registrations were read off it (the method bound to a local, handed to
+    # map(), called inside a comprehension / lambda) registers names this table does not have
+    from ..core import AnalysisError
+    for c in REACTION_CLASSES + GRAIN_CLASSES + ["ThermalProcess"]:
+        dc, fn = rm.pkg.resolve(c, "__init__")
+        if fn is None or dc != c:
+            continue
+        try:
+            fx = rm.pkg.expanded(dc, "__init__", keep=("register", "unregister"))
+        except AnalysisError:
+            fx = fn
+        written = sum(1 for x in ast.walk(fx) if (isinstance(x, ast.Attribute) and x.attr == "register") or (isinstance(x, ast.Name) and x.id == "register"))
+        direct = [x for x in ast.walk(fx) if isinstance(x, ast.Attribute) and x.attr == "_symbols" and isinstance(x.ctx, ast.Load)]
+        read = sum(1 for r in rm.registry(c) if r["cls"] == dc and r["op"] == "register")
+        if written > read or direct:
+            regs.opaque.add(c)
+            if ctx is not None:
+                ctx.unrec("R1", f"{c}.__init__:registrations", (rm.pkg.cls(c).file, fn.lineno), f"the constructor mentions `register` {written} times" + (" and the symbol table itself" if direct else "") +
+                          f" but only {read} registrations could be read off it: some names are registered in a way that is not understood")
     return regs
 
 
@@ -137,7 +160,20 @@ def check(ctx):
     ctx.stats["registered_symbols"] = nreg
     ctx.floor("R2", "registrations", nreg, 120)
     protos, defs, consts, cdefs = declared_everywhere(ctx)
-    phys_text, const_text = strip_comments(ctx.tree.read(PHYS_C)), strip_comments(ctx.tree.read(CONST_C))
+    # (as written and with includes / macros resolved)
+    phys_text = strip_comments(ctx.tree.read(PHYS_C)) + "\n" + strip_comments(J.text_of(J.flatten(ctx.tree, PHYS_C, {}), lambda it: "SPEC"))
+    const_text = strip_comments(ctx.tree.read(CONST_C)) + "\n" + strip_comments(J.text_of(J.flatten(ctx.tree, CONST_C, {}), lambda it: "SPEC"))
+    regs.header_text = strip_comments(J.text_of(J.flatten(ctx.tree, PHYS_H, {}), lambda it: "SPEC")) + "\n" + strip_comments(J.text_of(J.flatten(ctx.tree, CONST_H, {}), lambda it: "SPEC")) \
+        + "\n" + strip_comments(ctx.tree.read(PHYS_H)) + "\n" + strip_comments(ctx.tree.read(CONST_H))
+    # the declarations every unit sees, as far as they are read: fewer than the headers really hold means some are written in a way that
+    # is not understood, and "declared nowhere" cannot be concluded
+    plain_consts = [c for c in consts if "SPEC" not in c and "Table" not in c]
+    ctx.floor("R2", "physics prototypes", len(protos), 17)
+    ctx.floor("R2", "physical constants declared extern", len(plain_consts), 10)
+    if len(protos) < 17:
+        regs.opaque.add("naunet_physics.h")
+    if len(plain_consts) < 10:
+        regs.opaque.add("naunet_constants.h")
     for p in sorted(protos):
         # (the name written before a `(` somewhere in the .cpp but not recognised as a function definition: not understood, not missing)
         if p in defs or not re.search(r"\b" + re.escape(p) + r"\s*\(", phys_text):
@@ -802,7 +838,7 @@ def _r5(ctx, pkg):
                 pairs = [x for x in walk(v) if isinstance(x, tuple) and len(x) == 2 and x[0] == "tuple" and len(x[1]) == 2
                          and x[1][0][0] == "attr" and x[1][0][2] == "symbol" and x[1][1][0] == "attr" and x[1][1][2] == "value" and x[1][0][1] == x[1][1][1]]
                 tests = [x for x in walk(v) if isinstance(x, tuple) and len(x) == 3 and x[0] == "cmp"]
-                type_tests = [x for x in tests if x[1] == ("Eq",) and x[2][0][0] == "attr" and x[2][0][2] == "type" and x[2][1][0] == "attr" and x[2][1][1] == ("global", "VariableType")]
+                type_tests = [x for x in tests if x[1] in (("Eq",), ("Is",)) and x[2][0][0] == "attr" and x[2][0][2] == "type" and x[2][1][0] == "attr" and x[2][1][1] == ("global", "VariableType")]
                 kind_tests = [x for x in type_tests if x[2][1][2] == kind]
                 src = any(isinstance(x, tuple) and len(x) == 5 and x[0] == "meth" and x[1] == ("attr", SELF, "_symbols") and x[2] in ("items", "values") for x in walk(v))
                 good = len(pairs) >= 1 and len(kind_tests) >= 1 and len(tests) == len(kind_tests) and src
@@ -1012,14 +1048,46 @@ def _collect_rule(ctx, pkg):
         elif d[0] == "call" and d[1] == ("global", "filter") and len(d[2]) == 2 and d[2][1] == COMPS:
             evidence.append(f"{what} visits a filtered selection of `{ps[0]}`: {show(d)[:80]}")
         return False
+    def nonempty(c):
+        """(X, sense) when the condition `c` only asks whether X -- the component list, or one component's mapping -- has any items
+        (sense: c is true exactly when it has): skipping what is empty merges the same items.  None for any other condition"""
+        c = simp(c)
+        if c == COMPS or (c[0] == "call" and c[1] == ("global", "getattr") and len(c[2]) == 2 and c[2][1] == VT and c[2][0][0] == "elem" and c[2][0][1] == COMPS):
+            return c, True
+        if c[0] == "unop" and c[1] == "Not":
+            r = nonempty(c[2])
+            return None if r is None else (r[0], not r[1])
+        if c[0] == "call" and c[1] in (("global", "len"), ("global", "bool")) and len(c[2]) == 1 and not c[3]:
+            return nonempty(c[2][0])
+        if c[0] == "meth" and c[2] in ("items", "keys", "values") and not c[3] and not c[4]:
+            return nonempty(c[1])
+        if c[0] == "cmp" and len(c[1]) == 1 and len(c[2]) == 2 and c[2][1] in (("const", None), ("const", 0)):
+            r = nonempty(c[2][0])
+            if r is not None and c[1][0] in ("Is", "Eq"):
+                return r[0], not r[1]
+            if r is not None and c[1][0] in ("IsNot", "NotEq", "Gt"):
+                return r
+        return None
+
+    def selecting(guards, merged: bool):
+        """the guards that are more than `.. has items` (for a merge) / `.. is empty` (for a skip)"""
+        out = []
+        for gd in guards:
+            for c, pol in split_guard(gd):
+                r = nonempty(c)
+                if r is None or (r[1] == bool(pol)) != merged:
+                    out.append(c)
+        return out
     if acc is not None:
         st = [f for f in fl.facts if f.kind == "store" and f.target == acc]
         up = [f for f in fl.facts if f.kind == "mutate" and f.target == acc and f.op == "update"]
         brk = [f for f in fl.facts if f.kind in ("break", "continue") and f.loops]
         for f in st + up:
-            if f.guards:
-                evidence.append(f"the merge at line {f.line} happens only under {[show(g)[:50] for g, _ in f.guards]}")
+            if selecting(f.guards, True):
+                evidence.append(f"the merge at line {f.line} happens only under {[show(g)[:50] for g in selecting(f.guards, True)]}")
         for f in brk:
+            if f.kind == "continue" and f.guards and not selecting(f.guards, False):
+                continue          # (`if not var_dict: continue`: nothing to merge from an empty mapping)
             evidence.append(f"`{f.kind}` at line {f.line} skips components / items" + (f" when {[show(g)[:50] for g, _ in f.guards]}" if f.guards else ""))
         if len(st) == 1 and not up and len(st[0].loops) == 2:
             l1, l2 = st[0].loops
